@@ -262,6 +262,11 @@ theorem iterInv_step {s s' : State} (a : Action) (hi : IterInv s) (hs : step s a
         · simp at hs
       all_goals simp at hs
     next => simp at hs
+  | activeCheck c0 i pass =>
+    obtain ⟨_, _, _, h4, _, h6, _, _⟩ := stepActive_core hs
+    intro r q o c hq hd ho hh
+    rw [h4] at hq; rw [h6]
+    exact hi r q o c hq hd ho hh
   | tick => simp [step] at hs; subst hs; exact hi
 
 theorem iterInv_reachable {s : State} (h : Reachable s) : IterInv s := by
